@@ -81,7 +81,7 @@ void h_fe_ntz(void) {
 }
 /* ---------------------------------------------------------------- predicates / small setters */
 void h_fe_small(void) {
-    INPUT(secp256k1_fe, a); INPUT(secp256k1_fe, b); INPUT(int, v); INPUT(int, flag); INPUT(int, m);
+    INPUT(secp256k1_fe, a); INPUT(secp256k1_fe, b); INPUT(secp256k1_fe, src); INPUT(int, v); INPUT(int, flag); INPUT(int, m); INPUT(int, ms);
     secp256k1_fe r; int c;
     /* set_int: a in [0,0x7FFF] */
     __CPROVER_assume(v >= 0 && v <= 0x7FFF);
@@ -91,18 +91,21 @@ void h_fe_small(void) {
     __CPROVER_assume(m >= 0 && m <= 31 && sa_fe_mag(&b, m)); FE_FIELDS(b, m, 0);
     r = b;
     secp256k1_fe_add_int(&r, v);
-    __CPROVER_assert(fval(&r) == fval(&b) + W(v), "C05 fe_add_int: value is r + a");
+    __CPROVER_assert(sa_cong_p(fval(&r), fval(&b) + W(v)), "C05 fe_add_int: r == r + a (mod p)");
     __CPROVER_assert(sa_fe_mag(&r, m + 1), "C05 fe_add_int: magnitude increases by at most 1");
     /* predicates on normalized input */
     __CPROVER_assume(sa_fe_canon(&a)); FE_FIELDS(a, 1, 1);
     __CPROVER_assert(secp256k1_fe_is_zero(&a) == (fval(&a) == 0), "C05 fe_is_zero: value == 0");
     __CPROVER_assert(secp256k1_fe_is_odd(&a) == (int)(fval(&a) & 1), "C05 fe_is_odd: low bit of the value");
-    /* cmov on arbitrary limbs */
+    /* cmov: destination of magnitude m <= 31, source of ANY permitted magnitude 0..32, not normalized */
     __CPROVER_assume(flag == 0 || flag == 1);
+    __CPROVER_assume(ms >= 0 && ms <= 32 && sa_fe_mag(&src, ms)); FE_FIELDS(src, ms, 0);
     r = b;
-    secp256k1_fe_cmov(&r, &a, flag);
-    __CPROVER_assert(sa_fe_limbs_equal(&r, flag ? &a : &b), "C05 fe_cmov: r = flag ? a : r, limb for limb");
-    if (flag == 1 && fval(&a) != fval(&b)) REACH("fe_cmov taken");
+    secp256k1_fe_cmov(&r, &src, flag);
+    __CPROVER_assert(sa_fe_limbs_equal(&r, flag ? &src : &b), "C05 fe_cmov: r = flag ? a : r");
+    __CPROVER_assert(sa_fe_mag(&r, ms > m ? ms : m), "C05 fe_cmov: magnitude is the maximum of both");
+    if (flag == 1 && fval(&src) != fval(&b)) REACH("fe_cmov taken");
+    if (flag == 1 && ms == 32 && fval(&src) > (P_() << 4)) REACH("fe_cmov source of magnitude 32");
     if (v == 0x7FFF && m == 31) REACH("fe_add_int extreme");
     (void)c;
 }
@@ -203,40 +206,64 @@ void h_fe_signed(void) {
     if (m == 32) REACH("fe_get_bounds 32");
     if (snval(&sn) == N_() - 1) REACH("from_signed n-1");
 }
+/* ---------------------------------------------------------------- lemmas about the shared predicates of contracts/pre.h
+ * pre.h writes scalar_ok / fe_canon / fe_mag limb-wise (scalar_ok transcribes the shape of scalar_check_overflow) so that they can be
+ * used in contract clauses; every property that assumes or ensures them means the VALUE-level statement.  Proved equal here, for every
+ * bit pattern. */
+#if !defined(USE_FORCE_WIDEMUL_INT64)
+void h_spec_lemmas(void) {
+    INPUT(secp256k1_scalar, sc); INPUT(secp256k1_fe, a); INPUT(int, m);
+    __CPROVER_assert(scalar_ok(&sc) == (sval(&sc) < N_()), "C05 lemma: pre.h scalar_ok(a) == (value(a) < n)");
+    __CPROVER_assert(fe_canon(&a) == (sa_fe_limbs_tight(&a) && fval(&a) < P_()), "C05 lemma: pre.h fe_canon(a) == (limbs within width and value(a) < p)");
+    __CPROVER_assert(!fe_canon(&a) || (fval(&a) >> 256) == 0, "C05 lemma: a canonical element is a 256-bit value");
+    __CPROVER_assume(m >= 0 && m <= 32);
+    __CPROVER_assert(fe_mag(&a, m) == sa_fe_mag(&a, m), "C05 lemma: pre.h fe_mag(a,m) == limb bounds 2 m (2^52-1), 2 m (2^48-1) of field_5x52.h");
+    __CPROVER_assert(!sa_fe_mag(&a, m) || fval(&a) <= W(2 * (unsigned)m) * ((W(1) << 256) - 1), "C05 lemma: magnitude m bounds the value by 2 m (2^256 - 1)");
+    if (scalar_ok(&sc) && sval(&sc) == N_() - 1) REACH("lemma scalar n-1");
+    if (!scalar_ok(&sc) && sval(&sc) == N_()) REACH("lemma scalar n");
+    if (fe_canon(&a) && fval(&a) == P_() - 1) REACH("lemma fe p-1");
+}
+#endif
 /* ---------------------------------------------------------------- additive group */
 void h_fe_negate(void) {
-    INPUT(secp256k1_fe, a); INPUT(int, m);
-    secp256k1_fe r;
+    INPUT(secp256k1_fe, a); INPUT(int, m); INPUT(_Bool, alias);   /* the library negates in place: fe_negate(&r->y, &r->y, 1) */
+    secp256k1_fe r, a0, *pr = alias ? &a : &r;
     __CPROVER_assume(m >= 0 && m <= 31 && sa_fe_mag(&a, m)); FE_FIELDS(a, m, 0);
-    secp256k1_fe_negate_unchecked(&r, &a, m);
-    __CPROVER_assert(sa_cong_p(fval(&r) + fval(&a), 0), "C05 fe_negate: r + a == 0 (mod p)");
-    __CPROVER_assert(sa_fe_mag(&r, m + 1), "C05 fe_negate: output magnitude m+1 (no limb underflow)");
+    a0 = a;
+    secp256k1_fe_negate_unchecked(pr, &a, m);
+    __CPROVER_assert(sa_cong_p(fval(pr) + fval(&a0), 0), "C05 fe_negate: r + a == 0 (mod p)");
+    __CPROVER_assert(sa_fe_mag(pr, m + 1), "C05 fe_negate: output magnitude m+1 (no limb underflow)");
+    if (alias) REACH("fe_negate in place");
     if (m == 31) REACH("fe_negate m=31");
     if (m == 0) REACH("fe_negate m=0");
 }
 void h_fe_add(void) {
-    INPUT(secp256k1_fe, a); INPUT(secp256k1_fe, b); INPUT(int, ma); INPUT(int, mb);
-    secp256k1_fe r;
-    __CPROVER_assume(ma >= 0 && mb >= 0 && ma <= 32 && mb <= 32 && ma + mb <= 32 && sa_fe_mag(&a, ma) && sa_fe_mag(&b, mb)); FE_FIELDS(a, ma, 0); FE_FIELDS(b, mb, 0);
-    r = a;
-    secp256k1_fe_add(&r, &b);
+    INPUT(secp256k1_fe, a); INPUT(secp256k1_fe, b); INPUT(int, ma); INPUT(int, mb); INPUT(_Bool, alias);   /* alias: fe_add(&r, &r) doubles in place */
+    secp256k1_fe r, a0;
+    __CPROVER_assume(ma >= 0 && mb >= 0 && ma <= 32 && mb <= 32 && sa_fe_mag(&a, ma) && sa_fe_mag(&b, mb)); FE_FIELDS(a, ma, 0); FE_FIELDS(b, mb, 0);
+    if (alias) { b = a; mb = ma; }
+    __CPROVER_assume(ma + mb <= 32);
+    r = a; a0 = a;
+    if (alias) secp256k1_fe_add(&r, &r); else secp256k1_fe_add(&r, &b);
 #if defined(USE_FORCE_WIDEMUL_INT64)
-    /* 10x26: value(a) + value(b) = sum (a.n[i] + b.n[i]) 2^(26 i), written in the same Horner shape as fval (the direct form
-     * fval(a) + fval(b) is a 320-bit adder-tree miter over 30 terms that did not finish in 300 s) */
-    { wide sv = 0; int i; for (i = SA_FE_NL - 1; i >= 0; i--) sv = (sv << SA_FE_LIMB_BITS) + (W(a.n[i]) + W(b.n[i]));
-      __CPROVER_assert(fval(&r) == sv, "C05 fe_add: value is r + a"); }
+    /* 10x26: value(a) + value(b) = sum (a.n[i] + b.n[i]) 2^(26 i), written in the same Horner shape as fval: LIMB-WISE statement,
+     * because the direct form fval(a) + fval(b) is a 320-bit adder-tree miter over 30 terms that did not finish in 300 s */
+    { wide sv = 0; int i; for (i = SA_FE_NL - 1; i >= 0; i--) sv = (sv << SA_FE_LIMB_BITS) + (W(a0.n[i]) + W(b.n[i]));
+      __CPROVER_assert(sa_cong_p(fval(&r), sv), "C05 fe_add: r == r + a (mod p)"); }
 #else
-    __CPROVER_assert(fval(&r) == fval(&a) + fval(&b), "C05 fe_add: value is r + a");
+    __CPROVER_assert(sa_cong_p(fval(&r), fval(&a0) + fval(&b)), "C05 fe_add: r == r + a (mod p)");
 #endif
     __CPROVER_assert(sa_fe_mag(&r, ma + mb), "C05 fe_add: magnitudes add");
-    if (ma == 16 && mb == 16) REACH("fe_add 16+16");
+    if (!alias && ma == 16 && mb == 16) REACH("fe_add 16+16");
+    if (alias && ma == 16) REACH("fe_add in place (doubling) 16+16");
 }
 void h_fe_mul_int(void) {
     /* field.h: "a must be ... in [0,32]; the magnitude of r times a must not exceed 32".
      * Value: k * sum n[i] 2^(w i) = sum (k n[i]) 2^(w i), so "value is r * a" is stated per limb: the machine product
      * n[i] * k in the limb type (C semantics, the verifier's own multiplier) together with the proof, in 128 bits, that
-     * this product does not wrap.  (Measured: asking the solver for fval(r) == k fval(a) directly - a 320-bit
-     * distributivity miter - did not finish in 300 s in any of four formulations.) */
+     * this product does not wrap.  This is a LIMB-WISE statement, not a value congruence via sa_cong_p: asking the solver
+     * for fval(r) == k fval(a) (mod p) - a 320-bit distributivity miter - did not finish in 300 s in any of four
+     * formulations (wide multiply, repeated addition, 128-bit products in Horner and in explicit-sum shape). */
     INPUT(secp256k1_fe, a); INPUT(int, m); INPUT(int, k);
     secp256k1_fe r, e; int i, fits = 1;
     __CPROVER_assume(m >= 0 && m <= 32 && k >= 0 && k <= 32 && m * k <= 32 && sa_fe_mag(&a, m)); FE_FIELDS(a, m, 0);
